@@ -1,7 +1,852 @@
-From Coq Require Import List ZArith QArith Bool Lia.
+(** Proofs about the time-integration adapters (model FV.TimeInteg): every pull p0 < p1 of the
+    evicting adapter returns the exact integral of the interpolant of the full publication history
+    (divided by p1 - p0 for the average); additivity / conservation; averages lie within the range
+    of the contributing values; eviction is invisible. *)
+From Coq Require Import List ZArith QArith Qabs Bool Lia Lqa Setoid Morphisms.
 From FV Require Import Base TimeInterp TimeInteg.
+From FVP Require Import TimeInterp_proofs.
 Import ListNotations.
 Open Scope Z_scope.
 
-Lemma tmp_nodata ev c t : snd (get_data_i ev c init_i t) = IErrNoData.
+Arguments last_time : simpl never.
+Arguments clear_cached : simpl never.
+
+(* ------------------------------------------------------------------ *)
+(** ** min / max on Q *)
+
+Lemma qle_bool_false a b : Qle_bool a b = false -> (b < a)%Q.
+Proof.
+  intros E. apply Qnot_le_lt. intros H. apply Qle_bool_iff in H. congruence.
+Qed.
+
+Lemma qmin_spec a b : ((a <= b)%Q /\ qmin a b = a) \/ ((b < a)%Q /\ qmin a b = b).
+Proof.
+  unfold qmin. destruct (Qle_bool a b) eqn:E.
+  - left. split; [apply Qle_bool_iff; exact E|reflexivity].
+  - right. split; [apply qle_bool_false; exact E|reflexivity].
+Qed.
+
+Lemma qmax_spec a b : ((a <= b)%Q /\ qmax a b = b) \/ ((b < a)%Q /\ qmax a b = a).
+Proof.
+  unfold qmax. destruct (Qle_bool a b) eqn:E.
+  - left. split; [apply Qle_bool_iff; exact E|reflexivity].
+  - right. split; [apply qle_bool_false; exact E|reflexivity].
+Qed.
+
+Lemma qmin_left a b : (a <= b)%Q -> qmin a b = a.
+Proof. intros H. destruct (qmin_spec a b) as [[_ E]|[H' _]]; [exact E|lra]. Qed.
+Lemma qmax_left a b : (b < a)%Q -> qmax a b = a.
+Proof. intros H. destruct (qmax_spec a b) as [[H' _]|[_ E]]; [lra|exact E]. Qed.
+
+Global Instance qmin_proper : Proper (Qeq ==> Qeq ==> Qeq) qmin.
+Proof.
+  intros a a' Ha b b' Hb.
+  destruct (qmin_spec a b) as [[H1 ->]|[H1 ->]], (qmin_spec a' b') as [[H2 ->]|[H2 ->]]; lra.
+Qed.
+
+Global Instance qmax_proper : Proper (Qeq ==> Qeq ==> Qeq) qmax.
+Proof.
+  intros a a' Ha b b' Hb.
+  destruct (qmax_spec a b) as [[H1 ->]|[H1 ->]], (qmax_spec a' b') as [[H2 ->]|[H2 ->]]; lra.
+Qed.
+
+Lemma qmin_comm a b : (qmin a b == qmin b a)%Q.
+Proof.
+  destruct (qmin_spec a b) as [[H1 ->]|[H1 ->]], (qmin_spec b a) as [[H2 ->]|[H2 ->]]; lra.
+Qed.
+
+(** [min(d,s) + max(s,d) = d + s] *)
+Lemma qmin_qmax_sum d s : (qmin d s + qmax s d == d + s)%Q.
+Proof.
+  destruct (qmin_spec d s) as [[H1 ->]|[H1 ->]], (qmax_spec s d) as [[H2 ->]|[H2 ->]]; lra.
+Qed.
+
+(* ------------------------------------------------------------------ *)
+(** ** relative positions *)
+
+Lemma inject_pos r : 0 < r -> (0 < inject_Z r)%Q.
+Proof. intros H. change 0%Q with (inject_Z 0). rewrite <- Zlt_Qlt. exact H. Qed.
+
+Lemma rel_le0 a r : 0 < r -> a <= 0 -> (inject_Z a / inject_Z r <= 0)%Q.
+Proof.
+  intros Hr Ha. apply Qle_shift_div_r; [apply inject_pos; exact Hr|].
+  rewrite Qmult_0_l. change 0%Q with (inject_Z 0). rewrite <- Zle_Qle. exact Ha.
+Qed.
+
+Lemma rel_gt0 a r : 0 < r -> 0 < a -> (0 < inject_Z a / inject_Z r)%Q.
+Proof.
+  intros Hr Ha. apply Qlt_shift_div_l; [apply inject_pos; exact Hr|].
+  rewrite Qmult_0_l. apply inject_pos. exact Ha.
+Qed.
+
+Lemma rel_lt1 a r : 0 < r -> a < r -> (inject_Z a / inject_Z r < 1)%Q.
+Proof.
+  intros Hr Ha. apply Qlt_shift_div_r; [apply inject_pos; exact Hr|].
+  rewrite Qmult_1_l. rewrite <- Zlt_Qlt. exact Ha.
+Qed.
+
+Lemma rel_ge1 a r : 0 < r -> r <= a -> (1 <= inject_Z a / inject_Z r)%Q.
+Proof.
+  intros Hr Ha. apply Qle_shift_div_l; [apply inject_pos; exact Hr|].
+  rewrite Qmult_1_l. rewrite <- Zle_Qle. exact Ha.
+Qed.
+
+Lemma dcl_low t0 t1 x : t0 < t1 -> x <= t0 -> (dcl t0 t1 x == 0)%Q.
+Proof.
+  intros Hlt Hx. unfold dcl. pose proof (rel_le0 (x - t0) (t1 - t0) ltac:(lia) ltac:(lia)) as H.
+  destruct (qmax_spec (inject_Z (x - t0) / inject_Z (t1 - t0)) 0) as [[H1 ->]|[H1 ->]];
+    [|lra]. rewrite qmin_left by lra. reflexivity.
+Qed.
+
+Lemma dcl_high t0 t1 x : t0 < t1 -> t1 <= x -> (dcl t0 t1 x == 1)%Q.
+Proof.
+  intros Hlt Hx. unfold dcl. pose proof (rel_ge1 (x - t0) (t1 - t0) ltac:(lia) ltac:(lia)) as H.
+  rewrite qmax_left by lra.
+  destruct (qmin_spec (inject_Z (x - t0) / inject_Z (t1 - t0)) 1) as [[H1 ->]|[H1 ->]]; lra.
+Qed.
+
+(** the code's [dt1 = max(., 0)] and [dt2 = min(., 1)] are the clamped position whenever the
+    interval is not skipped / the loop not left *)
+Lemma dcl_mid_max t0 t1 x : t0 < t1 -> x < t1 ->
+  dcl t0 t1 x = qmax (inject_Z (x - t0) / inject_Z (t1 - t0)) 0.
+Proof.
+  intros Hlt Hx. unfold dcl. pose proof (rel_lt1 (x - t0) (t1 - t0) ltac:(lia) ltac:(lia)) as H.
+  apply qmin_left.
+  destruct (qmax_spec (inject_Z (x - t0) / inject_Z (t1 - t0)) 0) as [[H1 ->]|[H1 ->]]; lra.
+Qed.
+
+Lemma dcl_mid_min t0 t1 x : t0 < t1 -> t0 < x ->
+  dcl t0 t1 x = qmin (inject_Z (x - t0) / inject_Z (t1 - t0)) 1.
+Proof.
+  intros Hlt Hx. unfold dcl. pose proof (rel_gt0 (x - t0) (t1 - t0) ltac:(lia) ltac:(lia)) as H.
+  rewrite qmax_left by exact H. reflexivity.
+Qed.
+
+Lemma dcl_bounds t0 t1 x : (0 <= dcl t0 t1 x <= 1)%Q.
+Proof.
+  unfold dcl.
+  destruct (qmax_spec (inject_Z (x - t0) / inject_Z (t1 - t0)) 0) as [[H1 ->]|[H1 ->]].
+  - destruct (qmin_spec 0 1) as [[H2 ->]|[H2 ->]]; lra.
+  - destruct (qmin_spec (inject_Z (x - t0) / inject_Z (t1 - t0)) 1) as [[H2 ->]|[H2 ->]]; lra.
+Qed.
+
+(* ------------------------------------------------------------------ *)
+(** ** one interval: the loop body is the closed-form area *)
+
+Lemma antider_proper st v0 v1 d d' : (d == d')%Q -> (antider st v0 v1 d == antider st v0 v1 d')%Q.
+Proof.
+  intros E. destruct st as [s|]; unfold antider, A_step, A_lin; rewrite E; reflexivity.
+Qed.
+
+Lemma seg_value_area st p0 p1 t0 v0 t1 v1 :
+  t0 < t1 -> p0 < t1 -> t0 < p1 ->
+  (seg_value st p0 p1 t0 v0 t1 v1 == seg_area st (t0, v0) (t1, v1) p0 p1)%Q.
+Proof.
+  intros Hlt H0 H1. unfold seg_value, seg_area. simpl fst. simpl snd.
+  rewrite (dcl_mid_max t0 t1 p0 Hlt H0), (dcl_mid_min t0 t1 p1 Hlt H1).
+  set (dt1 := qmax (inject_Z (p0 - t0) / inject_Z (t1 - t0)) 0).
+  set (dt2 := qmin (inject_Z (p1 - t0) / inject_Z (t1 - t0)) 1).
+  destruct st as [s|]; unfold antider, A_step, A_lin.
+  - rewrite (qmin_comm s dt2). ring.
+  - ring.
+Qed.
+
+Lemma seg_area_same st e0 e1 a b :
+  (dcl (fst e0) (fst e1) a == dcl (fst e0) (fst e1) b)%Q -> (seg_area st e0 e1 a b == 0)%Q.
+Proof.
+  intros E. unfold seg_area. rewrite (antider_proper st _ _ _ _ E). ring.
+Qed.
+
+Lemma seg_area_after st e0 e1 a b :
+  fst e0 < fst e1 -> fst e1 <= a -> fst e1 <= b -> (seg_area st e0 e1 a b == 0)%Q.
+Proof.
+  intros Hlt Ha Hb. apply seg_area_same. rewrite !dcl_high by assumption. reflexivity.
+Qed.
+
+Lemma seg_area_before st e0 e1 a b :
+  fst e0 < fst e1 -> a <= fst e0 -> b <= fst e0 -> (seg_area st e0 e1 a b == 0)%Q.
+Proof.
+  intros Hlt Ha Hb. apply seg_area_same. rewrite !dcl_low by assumption. reflexivity.
+Qed.
+
+Lemma seg_area_additive st e0 e1 a b c :
+  (seg_area st e0 e1 a b + seg_area st e0 e1 b c == seg_area st e0 e1 a c)%Q.
+Proof. unfold seg_area. ring. Qed.
+
+(* ------------------------------------------------------------------ *)
+(** ** the integral *)
+
+Lemma integral_cons2 st sc e0 e1 r a b :
+  integral st sc (e0 :: e1 :: r) a b =
+  (seg_area st e0 e1 a b * (if sc then secs (fst e1 - fst e0) else 1) + integral st sc (e1 :: r) a b)%Q.
 Proof. reflexivity. Qed.
+
+Lemma integral_single st sc e0 a b : integral st sc [e0] a b = 0%Q.
+Proof. reflexivity. Qed.
+
+Theorem integral_additive st sc H a b c :
+  (integral st sc H a b + integral st sc H b c == integral st sc H a c)%Q.
+Proof.
+  induction H as [|e0 r IH]; [simpl; ring|].
+  destruct r as [|e1 r]; [simpl; ring|].
+  rewrite !integral_cons2. rewrite <- (seg_area_additive st e0 e1 a b c).
+  rewrite <- IH. ring.
+Qed.
+
+Lemma integral_before st sc a b : forall r t0 v0,
+  inc_from t0 r -> a <= t0 -> b <= t0 -> (integral st sc ((t0, v0) :: r) a b == 0)%Q.
+Proof.
+  induction r as [|[t1 v1] r IH]; intros t0 v0 Hinc Ha Hb; [reflexivity|].
+  destruct Hinc as [Hlt Hr]. rewrite integral_cons2.
+  rewrite seg_area_before by (simpl; lia). rewrite IH by (assumption || lia). ring.
+Qed.
+
+Lemma integral_skip_head st sc a b e0 e1 r :
+  fst e0 < fst e1 -> fst e1 <= a -> fst e1 <= b ->
+  (integral st sc (e0 :: e1 :: r) a b == integral st sc (e1 :: r) a b)%Q.
+Proof.
+  intros Hlt Ha Hb. rewrite integral_cons2, seg_area_after by assumption. ring.
+Qed.
+
+(** publications older than a retained entry that is not newer than [a] contribute nothing *)
+Lemma integral_suffix st sc a b : forall pre e0 r,
+  increasing (pre ++ e0 :: r) -> fst e0 <= a -> fst e0 <= b ->
+  (integral st sc (pre ++ e0 :: r) a b == integral st sc (e0 :: r) a b)%Q.
+Proof.
+  induction pre as [|x pre IH]; intros e0 r Hinc Ha Hb; [reflexivity|].
+  assert (Hinc' : increasing (pre ++ e0 :: r)).
+  { destruct x as [tx vx]. simpl in Hinc. exact (inc_from_increasing _ _ Hinc). }
+  rewrite <- (IH e0 r Hinc' Ha Hb).
+  destruct pre as [|y pre'].
+  - simpl app. apply integral_skip_head; try assumption.
+    exact (increasing_app_lt [x] e0 r x Hinc (or_introl eq_refl)).
+  - simpl app.
+    pose proof (increasing_app_lt (x :: y :: pre') e0 r y Hinc (or_intror (or_introl eq_refl))) as Hy.
+    assert (Hxy : fst x < fst y).
+    { destruct x as [tx vx]. simpl in Hinc. destruct y as [ty vy]. simpl in Hinc. simpl. tauto. }
+    apply integral_skip_head; lia.
+Qed.
+
+(** publications after [b] contribute nothing: the integral over [a, b] does not change when the
+    series is extended later *)
+Lemma integral_extend st sc a b : forall H t0 v0 e,
+  inc_from t0 (H ++ [e]) -> a <= last_time t0 H -> b <= last_time t0 H ->
+  (integral st sc (((t0, v0) :: H) ++ [e]) a b == integral st sc ((t0, v0) :: H) a b)%Q.
+Proof.
+  induction H as [|[t1 v1] r IH]; intros t0 v0 e Hinc Ha Hb.
+  - rewrite last_time_nil in *. simpl app. rewrite integral_cons2, integral_single.
+    destruct e as [te ve]. simpl in Hinc.
+    rewrite seg_area_before by (simpl; lia). simpl. ring.
+  - simpl app. rewrite !integral_cons2. destruct Hinc as [Hlt Hr].
+    rewrite last_time_cons in Ha, Hb. simpl in Ha, Hb.
+    pose proof (IH t1 v1 e Hr Ha Hb) as E. simpl app in E. rewrite E. reflexivity.
+Qed.
+
+(* ------------------------------------------------------------------ *)
+(** ** the loop *)
+
+Definition val (o : option Q) : Q := match o with Some a => a | None => 0%Q end.
+
+Lemma loop_val st sc p0 p1 : p0 <= p1 -> forall r t0 v0 acc,
+  inc_from t0 r ->
+  (val (integ_loop st sc p0 p1 t0 v0 r acc) == val acc + integral st sc ((t0, v0) :: r) p0 p1)%Q.
+Proof.
+  intros Hp. induction r as [|[t1 v1] r IH]; intros t0 v0 acc Hinc.
+  - simpl. ring.
+  - destruct Hinc as [Hlt Hr]. simpl integ_loop.
+    destruct (Z.leb_spec t1 p0) as [H1|H1].
+    + rewrite (IH t1 v1 acc Hr). rewrite integral_skip_head by (simpl; lia). reflexivity.
+    + destruct (Z.leb_spec p1 t0) as [H2|H2].
+      * rewrite integral_before by (simpl; auto; lia). ring.
+      * rewrite (IH t1 v1 _ Hr). rewrite integral_cons2. simpl fst.
+        rewrite <- (seg_value_area st p0 p1 t0 v0 t1 v1) by lia.
+        destruct acc as [a|]; simpl val; ring.
+Qed.
+
+Lemma loop_some_acc st sc p0 p1 : forall r t0 v0 a,
+  exists x, integ_loop st sc p0 p1 t0 v0 r (Some a) = Some x.
+Proof.
+  induction r as [|[t1 v1] r IH]; intros t0 v0 a; simpl; [eauto|].
+  destruct (t1 <=? p0); [apply IH|]. destruct (p1 <=? t0); [eauto|apply IH].
+Qed.
+
+Lemma loop_is_some st sc p0 p1 : p0 < p1 -> forall r t0 v0 acc,
+  inc_from t0 r -> t0 <= p0 -> p1 <= last_time t0 r ->
+  exists x, integ_loop st sc p0 p1 t0 v0 r acc = Some x.
+Proof.
+  intros Hp. induction r as [|[t1 v1] r IH]; intros t0 v0 acc Hinc H0 H1.
+  - rewrite last_time_nil in H1. lia.
+  - destruct Hinc as [Hlt Hr]. rewrite last_time_cons in H1. simpl in H1. simpl integ_loop.
+    destruct (Z.leb_spec t1 p0) as [Ha|Ha]; [apply IH; assumption|].
+    destruct (Z.leb_spec p1 t0) as [Hb|Hb]; [lia|]. apply loop_some_acc.
+Qed.
+
+(* ------------------------------------------------------------------ *)
+(** ** domain, invariant *)
+
+(** result equivalence: values up to [==] on [Q] *)
+Definition res_equiv (x y : ires) : Prop :=
+  match x, y with
+  | IOk a, IOk b => (a == b)%Q
+  | IErrTime, IErrTime => True
+  | IErrNoData, IErrNoData => True
+  | ICrash, ICrash => True
+  | _, _ => False
+  end.
+
+Lemma res_equiv_refl x : res_equiv x x.
+Proof. destruct x; simpl; auto. reflexivity. Qed.
+Lemma res_equiv_sym x y : res_equiv x y -> res_equiv y x.
+Proof. destruct x, y; simpl; auto. intros H; symmetry; exact H. Qed.
+Lemma res_equiv_trans x y z : res_equiv x y -> res_equiv y z -> res_equiv x z.
+Proof. destruct x, y, z; simpl; auto; try tauto. intros H1 H2; rewrite H1; exact H2. Qed.
+
+(** an in-range pull at [t] when the previous pull was at [p0]: strictly later, or the initial
+    pull at the first publication time while the lower bound still is that time *)
+Definition pull_ok_i (H : buf) (p0 : option Z) (t : Z) : Prop :=
+  match p0, H with
+  | Some p, (tf, _) :: _ => p < t \/ (t = p /\ p = tf)
+  | _, _ => False
+  end.
+
+Definition next_prev (p0 : option Z) (t : Z) : option Z :=
+  match p0 with None => Some t | p => p end.
+
+Fixpoint valid_i (H : buf) (p0 : option Z) (ops : list op) : Prop :=
+  match ops with
+  | [] => True
+  | Push t v :: r => push_ok H t /\ valid_i (H ++ [(t, v)]) (next_prev p0 t) r
+  | Pull t :: r => if in_range H t then pull_ok_i H p0 t /\ valid_i H (Some t) r
+                   else valid_i H p0 r
+  end.
+
+Definition InvI (H : buf) (p0 : option Z) (s : istate) : Prop :=
+  increasing H /\ i_prev s = p0 /\
+  exists pre, H = pre ++ i_buf s /\
+    match p0 with
+    | None => H = []
+    | Some p => exists e0 r, i_buf s = e0 :: r /\ fst e0 <= p
+    end.
+
+Lemma InvI_init : InvI [] None init_i.
+Proof. split; [exact I|]. split; [reflexivity|]. exists []. auto. Qed.
+
+Lemma InvI_push H p0 s t v :
+  InvI H p0 s -> push_ok H t -> InvI (H ++ [(t, v)]) (next_prev p0 t) (source_updated_i s t v).
+Proof.
+  intros [Hinc [Hp [pre [HH Hm]]]] Hok. split; [apply increasing_push; assumption|].
+  unfold source_updated_i. simpl. split; [rewrite Hp; destruct p0; reflexivity|].
+  exists pre. split; [rewrite HH, app_assoc; reflexivity|].
+  destruct p0 as [p|]; simpl.
+  - destruct Hm as [e0 [r [-> Hle]]]. exists e0, (r ++ [(t, v)]). auto.
+  - assert (E : pre = [] /\ i_buf s = []).
+    { rewrite Hm in HH. symmetry in HH. apply app_eq_nil in HH. exact HH. }
+    destruct E as [-> Eb]. rewrite Eb. simpl.
+    exists (t, v), []. simpl. split; [reflexivity|lia].
+Qed.
+
+(* ------------------------------------------------------------------ *)
+(** ** one pull *)
+
+Lemma qdiv_compat a b c : (a == b)%Q -> (a / c == b / c)%Q.
+Proof. intros E. rewrite E. reflexivity. Qed.
+
+Lemma get_data_i_cons ev c t0 v0 r p time :
+  get_data_i ev c (mk_ist ((t0, v0) :: r) (Some p)) time =
+  if (last_time t0 r <? time) || (time <? t0)
+  then (mk_ist ((t0, v0) :: r) (Some p), IErrTime)
+  else match interpolate_i c ((t0, v0) :: r) p time with
+       | IOk v => (mk_ist (if ev then clear_cached p ((t0, v0) :: r) else (t0, v0) :: r) (Some time), IOk v)
+       | e => (mk_ist ((t0, v0) :: r) (Some p), e)
+       end.
+Proof. reflexivity. Qed.
+
+Lemma pull_step_i ev c H p0 s t :
+  InvI H p0 s ->
+  (in_range H t = true -> pull_ok_i H p0 t) ->
+  res_equiv (snd (get_data_i ev c s t)) (spec_pull_i c H p0 t) /\
+  InvI H (if in_range H t then Some t else p0) (fst (get_data_i ev c s t)).
+Proof.
+  intros HI Hreq. pose proof HI as [Hinc [Hp [pre [HH Hm]]]].
+  destruct s as [b pv]. simpl in Hp, HH, Hm. subst pv.
+  destruct b as [|[t0 v0] r].
+  - (* nothing buffered: nothing published *)
+    destruct p0 as [p|]; [destruct Hm as [? [? [? _]]]; discriminate|].
+    clear HH. assert (H = []) as -> by exact Hm.
+    simpl. split; [exact I|exact HI].
+  - destruct H as [|[h0 x] hr]; [destruct pre; discriminate|].
+    destruct p0 as [p|]; [|discriminate].
+    destruct Hm as [e0 [r' [Hb Hle]]]. injection Hb as <- <-. simpl in Hle.
+    assert (Hh0 : h0 <= t0)
+      by exact (first_le_retained pre (t0, v0) r h0 x hr ltac:(rewrite <- HH; exact Hinc) (eq_sym HH)).
+    assert (Hlast : last_time h0 hr = last_time t0 r).
+    { destruct pre as [|a pre'].
+      - simpl in HH. injection HH as -> -> ->. reflexivity.
+      - simpl in HH. injection HH as _ ->. apply last_time_app_cons. }
+    assert (Hincb : increasing ((t0, v0) :: r)) by (rewrite HH in Hinc; exact (increasing_app_r _ _ Hinc)).
+    simpl in Hincb.
+    destruct (in_range ((h0, x) :: hr) t) eqn:Hr.
+    + (* in range *)
+      specialize (Hreq eq_refl). simpl in Hreq. pose proof Hr as Hr'. apply in_range_cons in Hr'.
+      rewrite get_data_i_cons.
+      assert (Ht0 : t0 <= t) by (destruct Hreq as [?|[? ?]]; lia).
+      destruct (Z.ltb_spec (last_time t0 r) t); [lia|]. destruct (Z.ltb_spec t t0); [lia|].
+      simpl orb. cbv iota.
+      assert (HInv' : forall b', (exists pre', (t0, v0) :: r = pre' ++ b') ->
+                                 (exists e1 r1, b' = e1 :: r1 /\ fst e1 <= p) ->
+                                 InvI ((h0, x) :: hr) (Some t) (mk_ist b' (Some t))).
+      { intros b' [pre' Hpre'] [e1 [r1 [Hb' Hle1]]]. split; [exact Hinc|]. split; [reflexivity|].
+        exists (pre ++ pre'). simpl. split; [rewrite <- app_assoc, <- Hpre'; exact HH|].
+        exists e1, r1. split; [exact Hb'|]. destruct Hreq as [?|[? ?]]; lia. }
+      assert (HInvEv : InvI ((h0, x) :: hr) (Some t)
+                (mk_ist (if ev then clear_cached p ((t0, v0) :: r) else (t0, v0) :: r) (Some t))).
+      { apply HInv'; destruct ev.
+        - apply clear_cached_suffix.
+        - exists []. reflexivity.
+        - exact (clear_cached_first p _ (t0, v0) r eq_refl Hle).
+        - exists (t0, v0), r. auto. }
+      destruct Hreq as [Hstrict|[Heq Hfirst]].
+      * (* p < t: a proper integration step *)
+        assert (Hr2 : exists e1 r1, r = e1 :: r1).
+        { destruct r as [|e1 r1]; [rewrite last_time_nil in *; lia|eauto]. }
+        destruct Hr2 as [e1 [r1 Hr1]].
+        assert (Hinit : match r with [] => true | _ :: _ => t <=? t0 end = false).
+        { rewrite Hr1. apply Z.leb_gt. lia. }
+        assert (HI2 : forall sc, (integral (c_step c) sc ((h0, x) :: hr) p t
+                                  == integral (c_step c) sc ((t0, v0) :: r) p t)%Q).
+        { intros sc. rewrite HH. apply integral_suffix; [rewrite <- HH; exact Hinc|simpl; lia|simpl; lia]. }
+        unfold interpolate_i. rewrite Hinit.
+        unfold spec_pull_i. rewrite Hr. destruct (Z.ltb_spec p t); [|lia].
+        destruct (c_avg c).
+        -- destruct (loop_is_some (c_step c) true p t Hstrict r t0 v0 None Hincb Hle ltac:(lia)) as [xv Hx].
+           pose proof (loop_val (c_step c) true p t ltac:(lia) r t0 v0 None Hincb) as Hv.
+           rewrite Hx in *. simpl val in Hv.
+           destruct (Z.ltb_spec 0 (t - p)); [|lia].
+           simpl fst. simpl snd. split; [|exact HInvEv].
+           unfold res_equiv. apply qdiv_compat. rewrite HI2, Hv. ring.
+        -- destruct (loop_is_some (c_step c) (c_per_time c) p t Hstrict r t0 v0 None Hincb Hle ltac:(lia)) as [xv Hx].
+           pose proof (loop_val (c_step c) (c_per_time c) p t ltac:(lia) r t0 v0 None Hincb) as Hv.
+           rewrite Hx in *. simpl val in Hv.
+           simpl fst. simpl snd. split; [|exact HInvEv].
+           unfold res_equiv. rewrite HI2, Hv. ring.
+      * (* the initial pull: t = p = first publication time, nothing was evicted *)
+        subst p. subst t.
+        assert (pre = []) as ->.
+        { destruct pre as [|a pre']; [reflexivity|]. exfalso.
+          assert (Hlt : fst a < t0).
+          { apply (increasing_app_lt (a :: pre') (t0, v0) r a); [rewrite <- HH; exact Hinc|left; reflexivity]. }
+          simpl in HH. injection HH as Ha _. subst a. simpl in Hlt. lia. }
+        simpl in HH. injection HH as -> -> ->.
+        assert (Hinit : match r with [] => true | _ :: _ => t0 <=? t0 end = true).
+        { destruct r; [reflexivity|apply Z.leb_refl]. }
+        unfold interpolate_i. rewrite Hinit.
+        unfold spec_pull_i. rewrite Hr. rewrite Z.ltb_irrefl.
+        destruct (c_avg c); simpl fst; simpl snd; (split; [apply res_equiv_refl|exact HInvEv]).
+    + (* outside the published range *)
+      assert (Hout : t < h0 \/ last_time h0 hr < t).
+      { pose proof Hr as Hr'. simpl in Hr'. apply andb_false_iff in Hr'. rewrite !Z.leb_gt in Hr'. tauto. }
+      rewrite get_data_i_cons.
+      replace ((last_time t0 r <? t) || (t <? t0)) with true.
+      2:{ symmetry. apply orb_true_iff. rewrite !Z.ltb_lt. lia. }
+      split; [simpl snd; unfold spec_pull_i; rewrite Hr; exact I|simpl fst; exact HI].
+Qed.
+
+(* ------------------------------------------------------------------ *)
+(** ** scripts *)
+
+Fixpoint final_i (ev : bool) (c : cfg) (s : istate) (ops : list op) : istate :=
+  match ops with
+  | [] => s
+  | Push t v :: r => final_i ev c (source_updated_i s t v) r
+  | Pull t :: r => final_i ev c (fst (get_data_i ev c s t)) r
+  end.
+
+(** the lower integration bound after a script *)
+Fixpoint bound_after (H : buf) (p0 : option Z) (ops : list op) : option Z :=
+  match ops with
+  | [] => p0
+  | Push t v :: r => bound_after (H ++ [(t, v)]) (next_prev p0 t) r
+  | Pull t :: r => bound_after H (if in_range H t then Some t else p0) r
+  end.
+
+Lemma run_spec_gen_i ev c : forall ops H p0 s,
+  InvI H p0 s -> valid_i H p0 ops ->
+  Forall2 res_equiv (run_i ev c s ops) (spec_run_i c H p0 ops).
+Proof.
+  induction ops as [|[t v|t] r IH]; intros H p0 s HI Hv; [constructor| |].
+  - destruct Hv as [Hp Hv]. simpl. apply IH; [apply InvI_push; assumption|exact Hv].
+  - simpl in Hv. simpl.
+    destruct (pull_step_i ev c H p0 s t HI) as [Hres HI'].
+    { intros Hr. rewrite Hr in Hv. tauto. }
+    destruct (get_data_i ev c s t) as [s' x]. simpl in *. constructor; [exact Hres|].
+    apply IH; [exact HI'|]. destruct (in_range H t); tauto.
+Qed.
+
+Lemma final_inv_i ev c : forall ops H p0 s,
+  InvI H p0 s -> valid_i H p0 ops ->
+  InvI (pubs H ops) (bound_after H p0 ops) (final_i ev c s ops).
+Proof.
+  induction ops as [|[t v|t] r IH]; intros H p0 s HI Hv; [exact HI| |].
+  - destruct Hv as [Hp Hv]. simpl. apply IH; [apply InvI_push; assumption|exact Hv].
+  - simpl in Hv. simpl.
+    destruct (pull_step_i ev c H p0 s t HI) as [_ HI'].
+    { intros Hr. rewrite Hr in Hv. tauto. }
+    apply IH; [exact HI'|]. destruct (in_range H t); tauto.
+Qed.
+
+Lemma valid_app_i : forall o1 H p0 o2,
+  valid_i H p0 (o1 ++ o2) <-> valid_i H p0 o1 /\ valid_i (pubs H o1) (bound_after H p0 o1) o2.
+Proof.
+  induction o1 as [|[t v|t] r IH]; intros H p0 o2; simpl; [tauto| |].
+  - rewrite IH. tauto.
+  - destruct (in_range H t); rewrite IH; tauto.
+Qed.
+
+(** every pull of the (evicting or not) adapter returns what the definition says *)
+Theorem adapter_is_integral ev c ops :
+  valid_i [] None ops -> Forall2 res_equiv (run_i ev c init_i ops) (spec_run_i c [] None ops).
+Proof. intros Hv. exact (run_spec_gen_i ev c ops [] None init_i InvI_init Hv). Qed.
+
+Lemma Forall2_equiv_trans l1 l2 l3 :
+  Forall2 res_equiv l1 l2 -> Forall2 res_equiv l3 l2 -> Forall2 res_equiv l1 l3.
+Proof.
+  intros H12. revert l3. induction H12 as [|x y l1 l2 Hxy _ IH]; intros l3 H32.
+  - inversion H32. constructor.
+  - inversion H32 as [|z y' l3' l2' Hzy H32' E1 E2]. subst. constructor.
+    + exact (res_equiv_trans _ _ _ Hxy (res_equiv_sym _ _ Hzy)).
+    + apply IH. exact H32'.
+Qed.
+
+Theorem eviction_invisible_i c ops :
+  valid_i [] None ops -> Forall2 res_equiv (run_i true c init_i ops) (run_i false c init_i ops).
+Proof.
+  intros Hv. exact (Forall2_equiv_trans _ _ _ (adapter_is_integral true c ops Hv)
+                                        (adapter_is_integral false c ops Hv)).
+Qed.
+
+(** one more pull after any valid script *)
+Lemma after_script_i ev c ops t :
+  valid_i [] None (ops ++ [Pull t]) ->
+  res_equiv (snd (get_data_i ev c (final_i ev c init_i ops) t))
+            (spec_pull_i c (pubs [] ops) (bound_after [] None ops) t) /\
+  InvI (pubs [] ops) (if in_range (pubs [] ops) t then Some t else bound_after [] None ops)
+       (fst (get_data_i ev c (final_i ev c init_i ops) t)).
+Proof.
+  intros Hv. apply valid_app_i in Hv. destruct Hv as [Hv1 Hv2].
+  pose proof (final_inv_i ev c ops [] None init_i InvI_init Hv1) as HI.
+  apply (pull_step_i ev c _ _ _ t HI). intros Hr. simpl in Hv2. rewrite Hr in Hv2. tauto.
+Qed.
+
+(* ------------------------------------------------------------------ *)
+(** ** conservation at the adapter level *)
+
+Lemma res_equiv_ok x y : res_equiv x (IOk y) -> exists a, x = IOk a /\ (a == y)%Q.
+Proof. destruct x; simpl; try contradiction. intros E. eauto. Qed.
+
+Lemma spec_pull_strict c H p t :
+  in_range H t = true -> p < t ->
+  spec_pull_i c H (Some p) t =
+  if c_avg c then IOk (integral (c_step c) true H p t / secs (t - p))
+  else IOk (integral (c_step c) (c_per_time c) H p t).
+Proof.
+  intros Hr Hlt. destruct H as [|[tf vf] hr]; [discriminate|].
+  unfold spec_pull_i. rewrite Hr. destruct (Z.ltb_spec p t); [reflexivity|lia].
+Qed.
+
+Lemma pull_ok_strict H p t : in_range H t = true -> p < t -> pull_ok_i H (Some p) t.
+Proof. destruct H as [|[tf vf] hr]; [discriminate|]. simpl. auto. Qed.
+
+(** After any valid script whose lower bound is [p]: pulling at [t1] and then at [t2] delivers
+    in total what a single pull at [t2] delivers. *)
+Theorem conservation_split ev c ops p t1 t2 :
+  c_avg c = false ->
+  valid_i [] None ops -> bound_after [] None ops = Some p ->
+  in_range (pubs [] ops) t1 = true -> in_range (pubs [] ops) t2 = true ->
+  p < t1 -> t1 < t2 ->
+  let s := final_i ev c init_i ops in
+  exists a b d,
+    snd (get_data_i ev c s t1) = IOk a /\
+    snd (get_data_i ev c (fst (get_data_i ev c s t1)) t2) = IOk b /\
+    snd (get_data_i ev c s t2) = IOk d /\
+    (a + b == d)%Q.
+Proof.
+  intros Hsum Hv Hb Hr1 Hr2 H1 H2 s.
+  pose proof (final_inv_i ev c ops [] None init_i InvI_init Hv) as HI. rewrite Hb in HI. fold s in HI.
+  destruct (pull_step_i ev c _ _ s t1 HI (fun _ => pull_ok_strict _ _ _ Hr1 H1)) as [E1 HI1].
+  assert (H12 : p < t2) by lia.
+  destruct (pull_step_i ev c _ _ s t2 HI (fun _ => pull_ok_strict _ _ _ Hr2 H12)) as [E2 _].
+  rewrite Hr1 in HI1.
+  destruct (pull_step_i ev c _ _ _ t2 HI1 (fun _ => pull_ok_strict _ _ _ Hr2 H2)) as [E3 _].
+  rewrite spec_pull_strict in E1, E2, E3 by (assumption || lia). rewrite Hsum in E1, E2, E3.
+  destruct (res_equiv_ok _ _ E1) as [a [Ea Ha]].
+  destruct (res_equiv_ok _ _ E3) as [b [Eb Hb']].
+  destruct (res_equiv_ok _ _ E2) as [d [Ed Hd]].
+  exists a, b, d. repeat split; try assumption.
+  rewrite Ha, Hb', Hd. apply integral_additive.
+Qed.
+
+(* ------------------------------------------------------------------ *)
+(** ** the closed-form areas are areas under the interpolant *)
+
+Lemma secs_eq d : (secs d == inject_Z d * (1 # 1000000))%Q.
+Proof. unfold secs, Qeq, Qmult, inject_Z. simpl. lia. Qed.
+
+Lemma secs_pos d : 0 < d -> (0 < secs d)%Q.
+Proof. intros H. unfold secs, Qlt. simpl. lia. Qed.
+
+Lemma secs_add a b : (secs a + secs b == secs (a + b))%Q.
+Proof. rewrite !secs_eq, inject_Z_plus. ring. Qed.
+
+Lemma inject_sub a b : (inject_Z (a - b) == inject_Z a - inject_Z b)%Q.
+Proof. unfold Z.sub. rewrite inject_Z_plus, inject_Z_opp. ring. Qed.
+
+Lemma inject_nz r : 0 < r -> ~ (inject_Z r == 0)%Q.
+Proof. intros H E. pose proof (inject_pos r H). lra. Qed.
+
+Lemma rel_ge0 a r : 0 < r -> 0 <= a -> (0 <= inject_Z a / inject_Z r)%Q.
+Proof.
+  intros Hr Ha. apply Qle_shift_div_l; [apply inject_pos; exact Hr|].
+  rewrite Qmult_0_l. change 0%Q with (inject_Z 0). rewrite <- Zle_Qle. exact Ha.
+Qed.
+
+Lemma rel_le1 a r : 0 < r -> a <= r -> (inject_Z a / inject_Z r <= 1)%Q.
+Proof.
+  intros Hr Ha. apply Qle_shift_div_r; [apply inject_pos; exact Hr|].
+  rewrite Qmult_1_l. rewrite <- Zle_Qle. exact Ha.
+Qed.
+
+Lemma rel_mono a b r : 0 < r -> a <= b -> (inject_Z a / inject_Z r <= inject_Z b / inject_Z r)%Q.
+Proof.
+  intros Hr Hab. unfold Qdiv. apply Qmult_le_compat_r.
+  - rewrite <- Zle_Qle. exact Hab.
+  - apply Qinv_le_0_compat. apply Qlt_le_weak. apply inject_pos. exact Hr.
+Qed.
+
+Lemma dcl_mid t0 t1 x : t0 < t1 -> t0 <= x <= t1 ->
+  (dcl t0 t1 x == inject_Z (x - t0) / inject_Z (t1 - t0))%Q.
+Proof.
+  intros Hlt Hx. unfold dcl.
+  pose proof (rel_ge0 (x - t0) (t1 - t0) ltac:(lia) ltac:(lia)) as H0.
+  pose proof (rel_le1 (x - t0) (t1 - t0) ltac:(lia) ltac:(lia)) as H1.
+  set (q := (inject_Z (x - t0) / inject_Z (t1 - t0))%Q) in *.
+  destruct (qmax_spec q 0) as [[Ha ->]|[Ha ->]].
+  - destruct (qmin_spec 0 1) as [[Hb ->]|[Hb ->]]; lra.
+  - destruct (qmin_spec q 1) as [[Hb ->]|[Hb ->]]; lra.
+Qed.
+
+Lemma dcl_mono t0 t1 a b : t0 < t1 -> a <= b -> (dcl t0 t1 a <= dcl t0 t1 b)%Q.
+Proof.
+  intros Hlt Hab. unfold dcl.
+  pose proof (rel_mono (a - t0) (b - t0) (t1 - t0) ltac:(lia) ltac:(lia)) as Hm.
+  set (qa := (inject_Z (a - t0) / inject_Z (t1 - t0))%Q) in *.
+  set (qb := (inject_Z (b - t0) / inject_Z (t1 - t0))%Q) in *.
+  destruct (qmax_spec qa 0) as [[Ha ->]|[Ha ->]], (qmax_spec qb 0) as [[Hb ->]|[Hb ->]].
+  - lra.
+  - destruct (qmin_spec 0 1) as [[H1 ->]|[H1 ->]], (qmin_spec qb 1) as [[H2 ->]|[H2 ->]]; lra.
+  - lra.
+  - destruct (qmin_spec qa 1) as [[H1 ->]|[H1 ->]], (qmin_spec qb 1) as [[H2 ->]|[H2 ->]]; lra.
+Qed.
+
+(** relative positions times the interval length are durations *)
+Lemma pos_secs t0 t1 x : t0 < t1 ->
+  (inject_Z (x - t0) / inject_Z (t1 - t0) * secs (t1 - t0) == secs (x - t0))%Q.
+Proof. intros Hlt. rewrite !secs_eq. field. apply inject_nz. lia. Qed.
+
+Lemma pos_diff t0 t1 x y : t0 < t1 ->
+  ((inject_Z (y - t0) / inject_Z (t1 - t0) - inject_Z (x - t0) / inject_Z (t1 - t0)) * secs (t1 - t0)
+   == secs (y - x))%Q.
+Proof.
+  intros Hlt. rewrite !secs_eq.
+  assert (E : (inject_Z (y - x) == inject_Z (y - t0) - inject_Z (x - t0))%Q).
+  { rewrite !inject_sub. ring. }
+  rewrite E. field. apply inject_nz. lia.
+Qed.
+
+Theorem area_linear t0 v0 t1 v1 x y :
+  t0 < t1 -> t0 <= x -> x <= y -> y <= t1 ->
+  let f := fun z => (v0 + (inject_Z (z - t0) / inject_Z (t1 - t0)) * (v1 - v0))%Q in
+  (seg_area None (t0, v0) (t1, v1) x y * secs (t1 - t0) == secs (y - x) * ((f x + f y) * (1 # 2)))%Q.
+Proof.
+  intros Hlt H0 H1 H2 f. unfold f, seg_area, antider, A_lin. simpl fst. simpl snd.
+  rewrite (dcl_mid t0 t1 x Hlt ltac:(lia)), (dcl_mid t0 t1 y Hlt ltac:(lia)).
+  rewrite <- (pos_diff t0 t1 x y Hlt). ring.
+Qed.
+
+Theorem area_step s t0 v0 t1 v1 x y :
+  t0 < t1 -> t0 <= x -> x <= y -> y <= t1 ->
+  let pos := fun z => (inject_Z (z - t0) / inject_Z (t1 - t0))%Q in
+  ((pos y <= s)%Q -> (seg_area (Some s) (t0, v0) (t1, v1) x y * secs (t1 - t0) == secs (y - x) * v0)%Q) /\
+  ((s <= pos x)%Q -> (seg_area (Some s) (t0, v0) (t1, v1) x y * secs (t1 - t0) == secs (y - x) * v1)%Q).
+Proof.
+  intros Hlt H0 H1 H2 pos.
+  pose proof (rel_mono (x - t0) (y - t0) (t1 - t0) ltac:(lia) ltac:(lia)) as Hm. fold (pos x) (pos y) in Hm.
+  unfold seg_area, antider, A_step. simpl fst. simpl snd.
+  rewrite (dcl_mid t0 t1 x Hlt ltac:(lia)), (dcl_mid t0 t1 y Hlt ltac:(lia)).
+  fold (pos x) (pos y). rewrite <- (pos_diff t0 t1 x y Hlt). fold (pos x) (pos y).
+  split; intros Hs.
+  - destruct (qmin_spec (pos y) s) as [[A1 ->]|[A1 ->]]; [|lra].
+    destruct (qmin_spec (pos x) s) as [[A2 ->]|[A2 ->]]; [|lra].
+    destruct (qmax_spec s (pos y)) as [[A3 A3']|[A3 ->]];
+      destruct (qmax_spec s (pos x)) as [[A4 A4']|[A4 ->]]; rewrite ?A3', ?A4'.
+    + assert (E1 : (pos y == s)%Q) by lra. assert (E2 : (pos x == s)%Q) by lra. rewrite E1, E2. ring.
+    + assert (E1 : (pos y == s)%Q) by lra. rewrite E1. ring.
+    + assert (E2 : (pos x == s)%Q) by lra. rewrite E2. ring.
+    + ring.
+  - destruct (qmax_spec s (pos y)) as [[A1 ->]|[A1 ->]]; [|lra].
+    destruct (qmax_spec s (pos x)) as [[A2 ->]|[A2 ->]]; [|lra].
+    destruct (qmin_spec (pos y) s) as [[A3 A3']|[A3 ->]];
+      destruct (qmin_spec (pos x) s) as [[A4 A4']|[A4 ->]]; rewrite ?A3', ?A4'.
+    + assert (E1 : (pos y == s)%Q) by lra. assert (E2 : (pos x == s)%Q) by lra. rewrite E1, E2. ring.
+    + assert (E1 : (pos y == s)%Q) by lra. rewrite E1. ring.
+    + assert (E2 : (pos x == s)%Q) by lra. rewrite E2. ring.
+    + ring.
+Qed.
+
+(* ------------------------------------------------------------------ *)
+(** ** every average lies within the range of the contributing values *)
+
+(** [m <= v <= M] for both end values of every publication interval that meets (p0, p1) *)
+Fixpoint bounded_contrib (m M : Q) (H : buf) (p0 p1 : Z) : Prop :=
+  match H with
+  | e0 :: r =>
+      match r with
+      | e1 :: _ =>
+          (fst e0 < p1 -> p0 < fst e1 -> (m <= snd e0 <= M)%Q /\ (m <= snd e1 <= M)%Q)
+          /\ bounded_contrib m M r p0 p1
+      | [] => True
+      end
+  | [] => True
+  end.
+
+(** total length (in seconds) of the part of the series before [x] *)
+Fixpoint glen (H : buf) (x : Z) : Q :=
+  match H with
+  | e0 :: r =>
+      match r with
+      | e1 :: _ => (dcl (fst e0) (fst e1) x * secs (fst e1 - fst e0) + glen r x)%Q
+      | [] => 0%Q
+      end
+  | [] => 0%Q
+  end.
+
+Lemma glen_cons2 e0 e1 r x :
+  glen (e0 :: e1 :: r) x = (dcl (fst e0) (fst e1) x * secs (fst e1 - fst e0) + glen (e1 :: r) x)%Q.
+Proof. reflexivity. Qed.
+
+Lemma glen_before x : forall r t0 v0, inc_from t0 r -> x <= t0 -> (glen ((t0, v0) :: r) x == 0)%Q.
+Proof.
+  induction r as [|[t1 v1] r IH]; intros t0 v0 Hinc Hx; [reflexivity|].
+  destruct Hinc as [Hlt Hr]. rewrite glen_cons2. simpl fst.
+  rewrite dcl_low by lia. rewrite IH by (assumption || lia). ring.
+Qed.
+
+Lemma glen_total x : forall r t0 v0,
+  inc_from t0 r -> t0 <= x -> x <= last_time t0 r -> (glen ((t0, v0) :: r) x == secs (x - t0))%Q.
+Proof.
+  induction r as [|[t1 v1] r IH]; intros t0 v0 Hinc H0 H1.
+  - rewrite last_time_nil in H1. replace (x - t0) with 0 by lia. reflexivity.
+  - destruct Hinc as [Hlt Hr]. rewrite last_time_cons in H1. simpl in H1.
+    rewrite glen_cons2. simpl fst.
+    destruct (Z_le_gt_dec x t1) as [Hx|Hx].
+    + rewrite dcl_mid by lia. rewrite pos_secs by lia.
+      rewrite glen_before by (assumption || lia). ring.
+    + rewrite dcl_high by lia. rewrite IH by (assumption || lia).
+      rewrite Qmult_1_l, secs_add. replace (t1 - t0 + (x - t1)) with (x - t0) by lia. reflexivity.
+Qed.
+
+Lemma seg_bounds st m M e0 e1 a b :
+  fst e0 < fst e1 -> a <= b -> (m <= snd e0 <= M)%Q -> (m <= snd e1 <= M)%Q ->
+  (m * (dcl (fst e0) (fst e1) b - dcl (fst e0) (fst e1) a) <= seg_area st e0 e1 a b
+   <= M * (dcl (fst e0) (fst e1) b - dcl (fst e0) (fst e1) a))%Q.
+Proof.
+  intros Hlt Hab H0 H1. unfold seg_area.
+  pose proof (dcl_mono (fst e0) (fst e1) a b Hlt Hab) as Hm.
+  pose proof (dcl_bounds (fst e0) (fst e1) a) as Ba.
+  pose proof (dcl_bounds (fst e0) (fst e1) b) as Bb.
+  set (d0 := dcl (fst e0) (fst e1) a) in *. set (d1 := dcl (fst e0) (fst e1) b) in *.
+  set (v0 := snd e0) in *. set (v1 := snd e1) in *.
+  destruct st as [s|]; unfold antider, A_step, A_lin.
+  - (* step: non-negative weights w0 + w1 = d1 - d0 *)
+    pose proof (qmin_qmax_sum d0 s) as S0. pose proof (qmin_qmax_sum d1 s) as S1.
+    assert (W0 : (0 <= qmin d1 s - qmin d0 s)%Q).
+    { destruct (qmin_spec d1 s) as [[A1 ->]|[A1 ->]], (qmin_spec d0 s) as [[A2 ->]|[A2 ->]]; lra. }
+    assert (W1 : (0 <= qmax s d1 - qmax s d0)%Q).
+    { destruct (qmax_spec s d1) as [[A1 ->]|[A1 ->]], (qmax_spec s d0) as [[A2 ->]|[A2 ->]]; lra. }
+    set (w0 := (qmin d1 s - qmin d0 s)%Q) in *. set (w1 := (qmax s d1 - qmax s d0)%Q) in *.
+    assert (E : (v0 * qmin d1 s + v1 * (qmax s d1 - s) - (v0 * qmin d0 s + v1 * (qmax s d0 - s))
+                 == v0 * w0 + v1 * w1)%Q) by (unfold w0, w1; ring).
+    assert (Ew : (d1 - d0 == w0 + w1)%Q) by (unfold w0, w1; lra).
+    rewrite E, Ew.
+    assert (P1 : (0 <= w0 * (v0 - m))%Q) by (apply Qmult_le_0_compat; lra).
+    assert (P2 : (0 <= w1 * (v1 - m))%Q) by (apply Qmult_le_0_compat; lra).
+    assert (P3 : (0 <= w0 * (M - v0))%Q) by (apply Qmult_le_0_compat; lra).
+    assert (P4 : (0 <= w1 * (M - v1))%Q) by (apply Qmult_le_0_compat; lra).
+    split; lra.
+  - (* linear: the mean of the line at the two ends *)
+    set (w := ((d0 + d1) * (1 # 2))%Q).
+    assert (E : (v0 * d1 + (v1 - v0) * d1 * d1 * (1 # 2) - (v0 * d0 + (v1 - v0) * d0 * d0 * (1 # 2))
+                 == (d1 - d0) * ((1 - w) * v0 + w * v1))%Q) by (unfold w; ring).
+    rewrite E.
+    assert (Bw : (0 <= w <= 1)%Q) by (unfold w; lra).
+    assert (P1 : (0 <= (1 - w) * (v0 - m))%Q) by (apply Qmult_le_0_compat; lra).
+    assert (P2 : (0 <= w * (v1 - m))%Q) by (apply Qmult_le_0_compat; lra).
+    assert (P3 : (0 <= (1 - w) * (M - v0))%Q) by (apply Qmult_le_0_compat; lra).
+    assert (P4 : (0 <= w * (M - v1))%Q) by (apply Qmult_le_0_compat; lra).
+    assert (Q1 : (0 <= (d1 - d0) * ((1 - w) * (v0 - m) + w * (v1 - m)))%Q) by (apply Qmult_le_0_compat; lra).
+    assert (Q2 : (0 <= (d1 - d0) * ((1 - w) * (M - v0) + w * (M - v1)))%Q) by (apply Qmult_le_0_compat; lra).
+    split; lra.
+Qed.
+
+Lemma integral_bounds st m M a b : a <= b -> forall r t0 v0,
+  inc_from t0 r -> bounded_contrib m M ((t0, v0) :: r) a b ->
+  (m * (glen ((t0, v0) :: r) b - glen ((t0, v0) :: r) a) <= integral st true ((t0, v0) :: r) a b
+   <= M * (glen ((t0, v0) :: r) b - glen ((t0, v0) :: r) a))%Q.
+Proof.
+  intros Hab. induction r as [|[t1 v1] r IH]; intros t0 v0 Hinc Hb.
+  - simpl. lra.
+  - destruct Hinc as [Hlt Hr]. destruct Hb as [Hc Hb].
+    specialize (IH t1 v1 Hr Hb). rewrite integral_cons2, !glen_cons2. simpl fst in *. simpl snd in *.
+    pose proof (secs_pos (t1 - t0) ltac:(lia)) as Hs.
+    set (S := secs (t1 - t0)) in *.
+    set (I' := integral st true ((t1, v1) :: r) a b) in *.
+    set (G := (glen ((t1, v1) :: r) b - glen ((t1, v1) :: r) a)%Q) in *.
+    set (d0 := dcl t0 t1 a) in *. set (d1 := dcl t0 t1 b) in *.
+    assert (Hseg : (m * (d1 - d0) * S <= seg_area st (t0, v0) (t1, v1) a b * S <= M * (d1 - d0) * S)%Q).
+    { destruct (Z_lt_dec t0 b) as [H1|H1]; [destruct (Z_lt_dec a t1) as [H2|H2]|].
+      - destruct (Hc H1 H2) as [B0 B1].
+        pose proof (seg_bounds st m M (t0, v0) (t1, v1) a b Hlt Hab B0 B1) as [L U].
+        simpl fst in L, U. fold d0 d1 in L, U.
+        split; apply Qmult_le_compat_r; lra.
+      - rewrite seg_area_after by (simpl; lia).
+        assert (E0 : (d0 == 1)%Q) by (apply dcl_high; lia).
+        assert (E1 : (d1 == 1)%Q) by (apply dcl_high; lia).
+        rewrite E0, E1. lra.
+      - rewrite seg_area_before by (simpl; lia).
+        assert (E0 : (d0 == 0)%Q) by (apply dcl_low; lia).
+        assert (E1 : (d1 == 0)%Q) by (apply dcl_low; lia).
+        rewrite E0, E1. lra. }
+    set (A := (seg_area st (t0, v0) (t1, v1) a b * S)%Q) in *.
+    assert (X1 : (m * (d1 * S + glen ((t1, v1) :: r) b - (d0 * S + glen ((t1, v1) :: r) a))
+                  == m * (d1 - d0) * S + m * G)%Q) by (unfold G; ring).
+    assert (X2 : (M * (d1 * S + glen ((t1, v1) :: r) b - (d0 * S + glen ((t1, v1) :: r) a))
+                  == M * (d1 - d0) * S + M * G)%Q) by (unfold G; ring).
+    rewrite X1, X2. lra.
+Qed.
+
+Theorem avg_in_range st H p0 p1 (m M : Q) :
+  increasing H -> in_range H p0 = true -> in_range H p1 = true -> p0 < p1 ->
+  bounded_contrib m M H p0 p1 ->
+  (m <= integral st true H p0 p1 / secs (p1 - p0) <= M)%Q.
+Proof.
+  intros Hinc Hr0 Hr1 Hlt Hb. destruct H as [|[h0 x] hr]; [discriminate|].
+  apply in_range_cons in Hr0. apply in_range_cons in Hr1. simpl in Hinc.
+  pose proof (integral_bounds st m M p0 p1 ltac:(lia) hr h0 x Hinc Hb) as [L U].
+  rewrite !glen_total in L, U by (assumption || lia).
+  assert (E : (secs (p1 - h0) - secs (p0 - h0) == secs (p1 - p0))%Q).
+  { rewrite !secs_eq, !inject_sub. ring. }
+  rewrite E in L, U.
+  pose proof (secs_pos (p1 - p0) ltac:(lia)) as Hs.
+  split.
+  - apply Qle_shift_div_l; [exact Hs|exact L].
+  - apply Qle_shift_div_r; [exact Hs|exact U].
+Qed.
